@@ -30,6 +30,8 @@ CONSTANTS
     MaxSets,       \* receiver sets that may be created
     RegionLens,    \* lengths of regions (abstract tokens for the harness' table of real lengths)
     Kinds,         \* subset of {"typed", "bytes"}: channel flavours NewChannel may create
+    DiscardSets,   \* TRUE: messages with embedded endpoints may be drained through a set as well; the program throws
+                   \*       them away WITHOUT deserialising them once the drain is over: what they carry dies with them
     FailSends      \* TRUE: a typed send may also be one whose value's serialisation reports an error after every
                    \* embedded endpoint/region has been visited (C14 seen from the handles: nothing is retained)
 
@@ -298,11 +300,14 @@ SetDrain(a, hx) ==
                                           tags |-> [k \in 1..Len(q[ms[i].c]) |-> q[ms[i].c][k].tag],
                                           closed |-> i \in closed]]
            n == SeqSum([i \in 1..Len(ms) |-> Len(q[ms[i].c]) + (IF i \in closed THEN 1 ELSE 0)])
-       IN /\ simple
-          /\ q' = [c \in DOMAIN q |-> IF \E i \in 1..Len(ms) : ms[i].c = c THEN <<>> ELSE q[c]]
-          /\ rcv' = [c \in DOMAIN rcv |-> IF \E i \in closed : ms[i].c = c THEN "gone" ELSE rcv[c]]
+           \* receivers travelling inside the drained messages die with them (and what is queued for them, recursively);
+           \* senders and regions inside them simply cease to exist with the emptied queues
+           dead == DeathClosure({c2 \in Chans : \E i \in 1..Len(ms) : QueueCount(ms[i].c, "R", c2) > 0})
+       IN /\ simple \/ DiscardSets
+          /\ q' = [c \in DOMAIN q |-> IF (\E i \in 1..Len(ms) : ms[i].c = c) \/ c \in dead THEN <<>> ELSE q[c]]
+          /\ rcv' = [c \in DOMAIN rcv |-> IF (\E i \in closed : ms[i].c = c) \/ c \in dead THEN "gone" ELSE rcv[c]]
           /\ members' = [members EXCEPT ![hx.c] = SelectSeq(ms, LAMBDA m : Senders(m.c) # 0)]
-          /\ Logged([op |-> "setdrain", a |-> a, x |-> hx.id, n |-> n, evs |-> evs])
+          /\ Logged([op |-> "setdrain", a |-> a, x |-> hx.id, n |-> n, evs |-> evs, discard |-> ~simple])
     /\ UNCHANGED <<H, nextH, nextC, ctype, regs, nextR, nextTag, alive, phase, nextX>>
 
 \* An agent other than the main one ends: all its handles are dropped (thread end / process exit).
